@@ -392,7 +392,7 @@ func spareOK(v any) bool {
 // after the call to what they encoded to before it.
 func runExecPure(p *path.Path, doc any, vars map[string]any, c *execCase, docB, varsB []byte) J {
 	res := runExec(p, doc, vars, c)
-	if c.Cancel == nil && (c.Entry == "query" || c.Entry == "first") && strings.Contains(c.Path, "keyvalue") {
+	if c.Cancel == nil && (c.Entry == "query" || c.Entry == "first") && strings.Contains(c.Path, "keyvalue") && !kvBelowGenerated(p.AST.Root()) {
 		// C16: ids are stable over repeated executions (heap addresses of the document do not move)
 		a, b := rawKVIDs(p, doc, vars, c), rawKVIDs(p, doc, vars, c)
 		if !reflect.DeepEqual(a, b) {
@@ -409,6 +409,56 @@ func runExecPure(p *path.Path, doc any, vars map[string]any, c *execCase, docB, 
 		return J{"out": "input-mutated", "what": "spare capacity of an input array was written"}
 	}
 	return res
+}
+
+// kvBelowGenerated recognises the shape of known finding D30: in one accessor chain a .keyvalue()
+// is applied to something reached by leaving a generated {key,value,id} triple through a member
+// or descendant accessor (`.keyvalue().value.keyvalue()`, `.keyvalue().*…keyvalue()`, `.keyvalue().**…`):
+// the id of such an object is its distance from the freshly allocated triple, which differs from
+// one execution to the next.
+func kvBelowGenerated(n ast.Node) bool {
+	if n == nil || reflect.ValueOf(n).IsNil() {
+		return false
+	}
+	seenKV, left := false, false
+	for cur := n; cur != nil && !reflect.ValueOf(cur).IsNil(); cur = cur.Next() {
+		switch x := cur.(type) {
+		case *ast.MethodNode:
+			if x.Name() == ast.MethodKeyValue {
+				if seenKV && left {
+					return true
+				}
+				seenKV, left = true, false
+			}
+		case *ast.KeyNode, *ast.AnyNode:
+			if seenKV {
+				left = true
+			}
+		case *ast.ConstNode:
+			if seenKV && (x.Const() == ast.ConstAnyKey || x.Const() == ast.ConstAnyArray) {
+				left = true
+			}
+		case *ast.BinaryNode:
+			if kvBelowGenerated(x.Left()) || kvBelowGenerated(x.Right()) {
+				return true
+			}
+		case *ast.UnaryNode:
+			if kvBelowGenerated(x.Operand()) {
+				return true
+			}
+		case *ast.RegexNode:
+			if kvBelowGenerated(x.Operand()) {
+				return true
+			}
+		case *ast.ArrayIndexNode:
+			for _, sub := range x.Subscripts() {
+				if kvBelowGenerated(sub) {
+					return true
+				}
+			}
+		}
+	}
+	return false
 }
 
 // rawKVIDs runs the query and returns the unmasked ids of the keyvalue triples in its result.
@@ -562,11 +612,22 @@ func execStream(args []string) int {
 	cancel := fs.Bool("cancel", false, "cancellation stream: every poll index of every group")
 	statsF := fs.String("stats", "", "write generator statistics here")
 	noDT := fs.Bool("nodt", false, "suppress datetime methods")
+	part := fs.Int("part", 0, "with a grid profile and -parts k: take the groups whose index is part mod k")
+	parts := fs.Int("parts", 1, "number of parts a grid is split into")
 	_ = fs.Parse(args)
 
 	var grid []group
 	if isGrid(*prof) {
 		grid = gridSample(*prof, *seed, *n)
+		if *parts > 1 {
+			var mine []group
+			for i, gr := range grid {
+				if i%*parts == *part {
+					mine = append(mine, gr)
+				}
+			}
+			grid = mine
+		}
 		*n = len(grid)
 	}
 	p, ok := profiles[*prof]
